@@ -37,13 +37,19 @@ func containsType(outer, inner types.Type, depth int) bool {
 }
 
 func (u *Unit) registerPtr(elem types.Type, obj, off *Term) []*Term {
-	if obj.hasBV || off.hasBV {
-		return nil
-	}
 	switch elem.Underlying().(type) {
 	case *types.Struct, *types.Slice, *types.Array:
 		// pointers to structs, to slice variables (*[]T) and to arrays
 	default:
+		return nil
+	}
+	return u.registerTyped(elem, obj, off)
+}
+
+// registerTyped: (obj, off) is the address of a value of type elem (any type with references or
+// structure: also a pointer-typed slice element).
+func (u *Unit) registerTyped(elem types.Type, obj, off *Term) []*Term {
+	if obj.hasBV || off.hasBV {
 		return nil
 	}
 	if obj.IsConst() {
